@@ -23,7 +23,7 @@ EXPECTED_PROBES = ['refill-with-partial-token', 'token-longer-than-buffer', 'inp
 
 class P(sb.StreamProp):
     ID = ID
-    CLASSES = {'token', 'less', 'input', 'more', 'stream', 'fatal', 'hang'}
+    CLASSES = {'token', 'less', 'input', 'more', 'stream', 'phantom', 'fatal', 'hang'}
 
     def gen_scenario(self, rng):
         return scenario.gen_scenario(rng, forbid=('vtrail',))
@@ -46,3 +46,19 @@ def work(ctx, idx):
 
 def evaluate(ctx, case):
     return sb.evaluate(PROP, ctx, case)
+
+
+def probes(ctx):
+    from simlib import rx
+    from simlib.plan import Plan, Source, Op
+    sc = scenario.Scenario()
+    sc.rules = [scenario.Rule(pat=rx.cls(rx.ALL), conds=[])]
+    sc.array = True
+    sc.flavor = 'nr'
+    p = Plan()
+    p.allow = 1
+    p.sources = [Source(b'abcd', [8])]
+    it = p.insts[0]
+    it.top = [Op('INIT'), Op('LEX', a=100)]
+    it.acts = [(1, Op('MORE')), (1, Op('LESS', a=1))]
+    return sb.probe(PROP, ctx, 'array-more-then-less', sc, p, 'more')
